@@ -328,3 +328,153 @@ Theorem td_observe_cubic_nodes Q (G : grids) gs go times tobs levels m :
                   nth_error tobs j = nth_error times b -> nth_error tobs j <> None ->
                   nth j (nth i m []) 0 = nth a (nth b levels []) 0.
 Proof. apply observe_interp_nodes. exact interp2_cubic_exact_at_nodes. Qed.
+
+(* ---------------- bicubic polynomials are reproduced ---------------- *)
+(* the value at (x, t) of the polynomial sum_ij A_ij x^i t^j of degree <= k in each variable *)
+Definition bipoly (k : nat) (A : qm) (x t : Qc) : Qc := qdot (pows k x) (qmatvec A (pows k t)).
+
+Lemma bipoly_in_x k A x t : bipoly k A x t = peval k (qmatvec A (pows k t)) x.
+Proof. reflexivity. Qed.
+Lemma bipoly_in_t k A x t : wf_mat (S k) A -> bipoly k A x t = peval k (qmattvec (S k) A (pows k x)) t.
+Proof.
+  intros Hw. unfold bipoly, peval. rewrite qdot_comm.
+  apply (qc_adjoint (S k) A (pows k t) (pows k x) Hw). apply pows_length.
+Qed.
+
+Lemma interp2_cubic_ok4 gs ts sol go to m : interp2_cubic gs ts sol go to = Ok m -> (4 <= length gs)%nat /\ (4 <= length ts)%nat.
+Proof.
+  unfold interp2_cubic. intros H.
+  destruct (negb (strictly_inc gs) || negb (strictly_inc ts)); [discriminate|].
+  destruct (negb ((length sol =? length ts)%nat && forallb (fun lv => (length lv =? length gs)%nat) sol)); [discriminate|].
+  destruct ((length gs <? 4)%nat || (length ts <? 4)%nat) eqn:E; [discriminate|].
+  apply orb_false_iff in E as [E1 E2]. apply Nat.ltb_ge in E1. apply Nat.ltb_ge in E2. split; assumption.
+Qed.
+
+Lemma list_ext_nth {A} (d : A) (l1 l2 : list A) : length l1 = length l2 -> (forall i, (i < length l1)%nat -> nth i l1 d = nth i l2 d) -> l1 = l2.
+Proof.
+  revert l2; induction l1 as [|a l1 IH]; intros [|b l2] HL H; simpl in *; try lia; [reflexivity|].
+  f_equal; [exact (H 0%nat ltac:(lia)) | apply IH; [lia | intros i Hi; exact (H (S i) ltac:(lia))]].
+Qed.
+
+(* samples of a polynomial of degree <= 3 in x and in t are observed as that polynomial at every point (points outside the
+   data rectangle: at the nearest boundary point) *)
+Theorem interp2_cubic_reproduces_bicubics (A : qm) gs ts go to m :
+  wf_mat 4 A -> length A = 4%nat ->
+  interp2_cubic gs ts (map (fun t => map (fun x => bipoly 3 A x t) gs) ts) go to = Ok m ->
+  m = map (fun x => map (fun t => bipoly 3 A (clamp_range gs x) (clamp_range ts t)) to) go.
+Proof.
+  intros Hw HA H.
+  destruct (interp2_cubic_ok4 _ _ _ _ _ _ H) as [G4 T4].
+  assert (Gne : gs <> []) by (intros ->; simpl in G4; nlia).
+  assert (Tne : ts <> []) by (intros ->; simpl in T4; nlia).
+  destruct (interp2_cubic_ok _ _ _ _ _ _ H) as [Ls [sp [Lsp [Hsp [Lm Hrow]]]]].
+  rewrite map_length in Lsp. unfold vec, mat, qv, qm in *.
+  (* every level at the (clamped) observation nodes *)
+  assert (Esp : sp = map (fun t => map (fun x => bipoly 3 A x t) (map (clamp_range gs) go)) ts).
+  { apply (list_ext_nth []); [rewrite map_length; exact Lsp|].
+    intros b Hb. destruct (nth_error sp b) as [lv|] eqn:Eb; [|apply nth_error_None in Eb; nlia].
+    rewrite (nth_error_nth sp b [] Eb). specialize (Hsp b lv Eb).
+    assert (Hbt : (b < length ts)%nat) by nlia.
+    rewrite (nth_indep _ [] ((fun t => map (fun x => bipoly 3 A x t) gs) 0)) in Hsp by (rewrite map_length; exact Hbt).
+    rewrite (map_nth (fun t => map (fun x => bipoly 3 A x t) gs) ts 0 b) in Hsp.
+    rewrite (nth_indep _ [] ((fun t => map (fun x => bipoly 3 A x t) (map (clamp_range gs) go)) 0)) by (rewrite map_length; exact Hbt).
+    rewrite (map_nth (fun t => map (fun x => bipoly 3 A x t) (map (clamp_range gs) go)) ts 0 b).
+    apply (spl_interp_poly 3 (cubic_knots gs) gs (map (clamp_range gs) go) (qmatvec A (pows 3 (nth b ts 0))) lv).
+    - rewrite qmatvec_length. exact HA.
+    - exact Gne.
+    - exact Hsp. }
+  apply (list_ext_nth []); [rewrite map_length; exact Lm|].
+  intros i Hi. destruct (nth_error m i) as [row|] eqn:Er; [|apply nth_error_None in Er; nlia].
+  rewrite (nth_error_nth m i [] Er). specialize (Hrow i row Er).
+  assert (Hig : (i < length go)%nat) by nlia.
+  rewrite (nth_indep _ [] ((fun x => map (fun t => bipoly 3 A (clamp_range gs x) (clamp_range ts t)) to) 0)) by (rewrite map_length; exact Hig).
+  rewrite (map_nth (fun x => map (fun t => bipoly 3 A (clamp_range gs x) (clamp_range ts t)) to) go 0 i).
+  set (xi := clamp_range gs (nth i go 0)).
+  assert (Eser : map (fun lv => nthq lv i) sp = map (peval 3 (qmattvec 4 A (pows 3 xi))) ts).
+  { rewrite Esp, map_map. apply map_ext. intros t. unfold nthq.
+    rewrite (nth_indep _ 0 ((fun x => bipoly 3 A x t) 0)) by (rewrite !map_length; exact Hig).
+    rewrite (map_nth (fun x => bipoly 3 A x t) (map (clamp_range gs) go) 0 i).
+    rewrite (nth_indep _ 0 (clamp_range gs 0)) by (rewrite map_length; exact Hig).
+    rewrite (map_nth (clamp_range gs) go 0 i). fold xi. apply bipoly_in_t. exact Hw. }
+  assert (Hrow' : spl_interp 3 (cubic_knots ts) ts (map (peval 3 (qmattvec 4 A (pows 3 xi))) ts) (map (clamp_range ts) to) = SplOk row)
+    by (rewrite <- Eser; exact Hrow).
+  rewrite (spl_interp_poly 3 (cubic_knots ts) ts (map (clamp_range ts) to) (qmattvec 4 A (pows 3 xi)) row); [| |exact Tne|exact Hrow'].
+  - rewrite map_map. apply map_ext. intros t. symmetry. apply bipoly_in_t. exact Hw.
+  - apply (mattvec_length Qc 0 Qcplus Qcmult). exact Hw.
+Qed.
+
+(* non-vacuity: 4 nodes x 5 levels, a genuinely bicubic polynomial, two observation nodes, three times (one beyond the last level) *)
+Example ex_interp2_cubic :
+  let gs := qvec [0 # 1; 1 # 1; 2 # 1; 4 # 1] in let ts := qvec [0 # 1; 1 # 2; 1 # 1; 3 # 1; 4 # 1] in
+  let A := qmat [[1 # 1; 0 # 1; 2 # 1; 0 # 1]; [0 # 1; 1 # 1; 0 # 1; 0 # 1]; [0 # 1; 0 # 1; 0 # 1; 1 # 1]; [1 # 2; 0 # 1; 0 # 1; 0 # 1]] in
+  wf_mat 4 A /\ length A = 4%nat /\
+  exists m, interp2_cubic gs ts (map (fun t => map (fun x => bipoly 3 A x t) gs) ts) (qvec [1 # 2; 3 # 1]) (qvec [1 # 4; 2 # 1; 5 # 1]) = Ok m.
+Proof. split; [repeat constructor|]. split; [reflexivity|]. eexists. vm_compute. reflexivity. Qed.
+
+(* ================= the PDE-based model's output with the routines that run ================= *)
+(* steady PDE, unequal grids, no observation map: PDEModel._forward_func at an observation node that is a solution node returns
+   the solver's solution value at that node; a solver vector that is a quadratic on grid_sol is returned as that quadratic on
+   the whole observation grid *)
+Theorem ss_forward_quad_nodes (P I : Type) (solver : nat -> qm -> qv -> sret I) (sform : P -> qm * qv)
+        (G : grids) (s : sstate) (p : P) gs go out :
+  g_eq G = false -> g_sol G = Some gs -> g_obs G = Some go ->
+  ss_forward P I solver sform None interp1_quad G s p = Ok (A1 out) ->
+  let u := sret_sol (solver 0%nat (fst (sform p)) (snd (sform p))) in
+  length out = length go /\
+  (forall i a x, nth_error go i = Some x -> nth_error gs a = Some x -> nth i out 0 = nth a u 0) /\
+  (forall a b c, u = map (fun x => a + b * x + c * x * x) gs -> out = map (fun x => a + b * x + c * x * x) go).
+Proof.
+  intros Hg Hs Ho H u. rewrite ss_pipeline in H. fold u in H.
+  unfold ss_observe in H. rewrite Hg, Hs, Ho in H. cbn [apply_obsmap negb] in H.
+  destruct (interp1_quad gs u go) as [v|e] eqn:E; [|discriminate]. injection H as <-.
+  destruct (interp1_quad_nodes _ _ _ _ E) as [L N]. split; [exact L|]. split; [exact N|].
+  intros a b c Hu. rewrite Hu in E. exact (interp1_quad_reproduces_quadratics _ _ _ _ _ _ E).
+Qed.
+
+(* time-dependent PDE, spline route, several observation times, no observation map: the model's output at a coinciding node and
+   time is the stored level value of the solve step (forward or backward Euler) *)
+Theorem td_forward_cubic_nodes (P I : Type) (solver : nat -> qm -> qv -> sret I) (form : P -> Qc -> qm * qv * qv) (Q : quirks)
+        (G : grids) (m : method) (times tobs : qv) (prev : option P) (p : P) gs go levels info M :
+  td_solve P I solver form Q m (Some p) times = Ok (levels, info) ->
+  g_eq G && time_test Q times tobs = false -> coincide_restriction Q G times tobs levels = None ->
+  g_sol G = Some gs -> g_obs G = Some go -> (length tobs <> 1)%nat ->
+  td_forward P I solver form Q None interp2_cubic G m times tobs prev p = Ok (A2 M) ->
+  length M = length go /\ Forall (fun row => length row = length tobs) M /\
+  forall i j a b, nth_error go i = nth_error gs a -> nth_error go i <> None ->
+                  nth_error tobs j = nth_error times b -> nth_error tobs j <> None ->
+                  nth j (nth i M []) 0 = nth a (nth b levels []) 0.
+Proof.
+  intros Hsol Hb Hc Hs Ho Hl H.
+  rewrite (proj1 (td_pipeline P I solver form Q None interp2_cubic G m times tobs prev p)) in H. rewrite Hsol in H.
+  rewrite (observe_interp_general Q None interp2_cubic G gs go times tobs levels Hb Hc Hs Ho) in H.
+  destruct (interp2_cubic gs times levels go tobs) as [m0|e] eqn:E; [|discriminate].
+  cbn [apply_obsmap] in H. destruct (length tobs =? 1)%nat eqn:E1; [apply Nat.eqb_eq in E1; contradiction|].
+  injection H as <-. destruct (interp2_cubic_shape _ _ _ _ _ _ E) as [L F]. split; [exact L|]. split; [exact F|].
+  intros i j a b. apply (interp2_cubic_exact_at_nodes _ _ _ _ _ _ E).
+Qed.
+
+(* non-vacuity of the hypotheses of ss_forward_quad_nodes and td_forward_cubic_nodes: a steady problem whose "solver" returns the
+   right-hand side (operator = identity), observed between the nodes; a 4-node, 4-level forward-Euler problem with zero
+   operator and unit source observed at two nodes/times of which one each is stored *)
+Definition exi_solver (k : nat) (A : qm) (b : qv) : sret Z := SPlain b.
+Definition exi_sform (p : qv) : qm * qv := (eye 4, p).
+Definition exi_form (p : qv) (t : Qc) : qm * qv * qv := (map (fun _ => qvzero 4) (seq 0 4), [qc (1 # 1)], p).
+Example ex_pipeline_interp :
+  let G := init_grids (Some (qvec [0 # 1; 1 # 1; 2 # 1; 4 # 1])) (Some (qvec [1 # 2; 2 # 1])) in
+  g_eq G = false /\
+  ss_forward qv Z exi_solver exi_sform None interp1_quad G (mkSS None) (qvec [1 # 1; 2 # 1; 5 # 1; 17 # 1])
+    = Ok (A1 (qvec [5 # 4; 5 # 1])) /\
+  let times := qvec [0 # 1; 1 # 1; 2 # 1; 3 # 1] in let tobs := qvec [1 # 2; 2 # 1] in
+  let G2 := init_grids (Some (qvec [0 # 1; 1 # 1; 2 # 1; 3 # 1])) (Some (qvec [1 # 2; 2 # 1])) in
+  let p := qvec [1 # 1; 0 # 1; 4 # 1; 2 # 1] in
+  exists levels M,
+    td_solve qv Z exi_solver exi_form quirks_minimal MFwd (Some p) times = Ok (levels, None) /\
+    g_eq G2 && time_test quirks_minimal times tobs = false /\
+    coincide_restriction quirks_minimal G2 times tobs levels = None /\
+    td_forward qv Z exi_solver exi_form quirks_minimal None interp2_cubic G2 MFwd times tobs None p = Ok (A2 M) /\
+    nth 1 (nth 1 M []) 0 = nth 2 (nth 2 levels []) 0.
+Proof.
+  split; [reflexivity|]. split; [vm_compute; reflexivity|].
+  eexists. eexists. split; [vm_compute; reflexivity|]. split; [vm_compute; reflexivity|]. split; [vm_compute; reflexivity|].
+  split; vm_compute; reflexivity.
+Qed.
